@@ -107,6 +107,9 @@ DecInt(t, bs, e) == IF Len(bs) < t.w THEN Fail
                              ext == IF t.s /\ be[1] >= 128 THEN 255 ELSE 0
                          IN Got(CanonInt(Rep(ext, 9 - t.w) \o be), Drop(bs, t.w))
 
+\* a decoded integer used as a count / flag word / selector: its value, or -1 when negative or too wide
+NatOf(v) == IF Is(v, "i") THEN (IF v.i >= 0 THEN v.i ELSE -1) ELSE -1
+
 \* ------------------------------------------------------------- dictionaries
 Has(d, name) == \E j \in 1..Len(d) : d[j].n = name
 Get(d, name) == d[CHOOSE j \in 1..Len(d) : d[j].n = name].v
@@ -267,9 +270,9 @@ E(t, v, e, ctx) ==
     [] t.k = "optflag" ->
          IF ctx = <<>> \/ ~IsDict(ctx[1]) THEN Bad
          ELSE IF ~Has(ctx[1].d, t.field) THEN Bad
-         ELSE LET fl == Get(ctx[1].d, t.field) IN
-              IF ~Is(fl, "i") THEN Bad ELSE IF fl.i < 0 THEN Bad
-              ELSE IF BitAnd(fl.i, t.mask) # 0 THEN E(t.c, v, e, ctx)
+         ELSE LET fl == NatOf(Get(ctx[1].d, t.field)) IN
+              IF fl < 0 THEN Bad
+              ELSE IF BitAnd(fl, t.mask) # 0 THEN E(t.c, v, e, ctx)
               ELSE IF IsNone(v) THEN Ok(<<>>) ELSE Bad
     [] t.k = "ifpresent" ->
          IF IsNone(v) THEN Ok(<<>>)
@@ -312,8 +315,7 @@ E(t, v, e, ctx) ==
     [] t.k = "bitfield" ->
          IF ~IsDict(v) THEN Bad
          ELSE IF Names(v.d) # [j \in 1..Len(t.fs) |-> t.fs[j].n] \/ SumBits(t.fs) > 30 THEN Bad
-         ELSE IF \E j \in 1..Len(v.d) : ~Is(v.d[j].v, "i") THEN Bad
-         ELSE IF \E j \in 1..Len(v.d) : v.d[j].v.i < 0 THEN Bad
+         ELSE IF \E j \in 1..Len(v.d) : NatOf(v.d[j].v) < 0 THEN Bad
          ELSE LET packed == PackBits(t.fs, v.d, t.shift, 0, 0) IN
               IF packed < 0 THEN Rej ELSE EncInt(t.p, [i |-> packed], e)
     [] t.k = "typedbytes" ->
@@ -366,8 +368,8 @@ Unpack(fs, packed, shift, cur) ==
 Window(t, bs, e) ==
   CASE t.m = "prefix" ->
          LET p == DecInt(t.p, bs, e) IN
-         IF ~p.ok THEN Fail ELSE IF ~Is(p.v, "i") THEN Fail
-         ELSE IF p.v.i < 0 \/ p.v.i > Len(p.r) THEN Fail
+         IF ~p.ok THEN Fail
+         ELSE IF NatOf(p.v) < 0 \/ NatOf(p.v) > Len(p.r) THEN Fail
          ELSE Got(Take(p.r, p.v.i), Drop(p.r, p.v.i))
     [] t.m = "fixed" -> IF Len(bs) < t.n THEN Fail ELSE Got(Take(bs, t.n), Drop(bs, t.n))
     [] t.m = "greedy" -> Got(bs, <<>>)
@@ -408,9 +410,9 @@ D(t, bs, e, ctx) ==
     [] t.k = "optflag" ->
          IF ctx = <<>> \/ ~IsDict(ctx[1]) THEN Fail
          ELSE IF ~Has(ctx[1].d, t.field) THEN Fail
-         ELSE LET fl == Get(ctx[1].d, t.field) IN
-              IF ~Is(fl, "i") THEN Fail ELSE IF fl.i < 0 THEN Fail
-              ELSE IF BitAnd(fl.i, t.mask) # 0 THEN D(t.c, bs, e, ctx) ELSE Got(None, bs)
+         ELSE LET fl == NatOf(Get(ctx[1].d, t.field)) IN
+              IF fl < 0 THEN Fail
+              ELSE IF BitAnd(fl, t.mask) # 0 THEN D(t.c, bs, e, ctx) ELSE Got(None, bs)
     [] t.k = "ifpresent" -> IF bs = <<>> THEN Got(None, bs) ELSE D(t.c, bs, e, ctx)
     [] t.k = "lenswitch" ->
          LET n == Len(bs)
@@ -425,7 +427,7 @@ D(t, bs, e, ctx) ==
               IF ~h.ok THEN Fail ELSE Got([tag |-> g.v, val |-> h.v], h.r)
     [] t.k = "flagswitch" ->
          LET g == DecInt(t.f, bs, e) IN
-         IF ~g.ok THEN Fail ELSE IF ~Is(g.v, "i") THEN Fail ELSE IF g.v.i < 0 THEN Fail
+         IF ~g.ok THEN Fail ELSE IF NatOf(g.v) < 0 THEN Fail
          ELSE DFlags(t.ch, g.v.i, g.r, e, ctx, <<>>)
     [] t.k = "ctxswitch" ->
          IF Len(ctx) < t.up + 1 THEN Fail
@@ -437,7 +439,7 @@ D(t, bs, e, ctx) ==
                    ELSE IF t.dflt # <<>> THEN D(t.dflt[1], bs, e, ctx) ELSE Fail
     [] t.k = "bitfield" ->
          LET g == DecInt(t.p, bs, e) IN
-         IF ~g.ok THEN Fail ELSE IF ~Is(g.v, "i") THEN Fail ELSE IF g.v.i < 0 THEN Fail
+         IF ~g.ok THEN Fail ELSE IF NatOf(g.v) < 0 THEN Fail
          ELSE Got([d |-> Unpack(t.fs, g.v.i, t.shift, 0)], g.r)
     [] t.k = "typedbytes" ->
          LET w == Window([m |-> t.m, p |-> t.p, n |-> t.n, terms |-> t.terms, eof |-> TRUE], bs, e) IN
